@@ -1,6 +1,151 @@
 import NpsVerif.Model.SetItem
+import NpsVerif.Proofs.SetItemMain
+/-! Property C03: assignment `ra[index] = value` (and `ra[ragged_bool_mask] = value`) on
+`RaggedArray(rows)` = writing the values, in order, into the cells the index addresses on the plain
+list of rows.  Helper lemmas: `Proofs/SetItemCells.lean` (one write, the write fold, the coordinate
+grid), `Proofs/SetItemNat.lean` (`Py.getitem` is natural in the cell type), `Proofs/SetItemScatter.lean`
+(cell write = flat `set`; the position grid), `Proofs/SetItemFlat.lean` (`flatIndex` vs `getitem`),
+`Proofs/SetItemMain.lean` (value shaping, scatter, assembly).  The column-vector case uses
+`Props.C04.C04_raw_broadcast` (imported from `Props/C04Assumed.lean`). -/
 namespace Props.C03
-open Model
-/-- sanity instance; the universally quantified theorems are added as they are proved -/
+open Model Model.SI
+variable {α : Type}
+
+/-- sanity instance -/
 theorem setCell_example : Py.setCell [[1, 2], [], [3]] (2, 0) 9 = [[1, 2], [], [9]] := by decide
+
+/-- the cells an index expression addresses, in order -/
+def addressed (rows : List (List α)) (idx : Index) : Option (List (Nat × Nat)) :=
+  (Py.getitem (Py.coords rows) idx).map Py.resCells
+
+/-- HEADLINE: the model of `ra[idx] = value` equals writing the values, in order, into the cells the
+index addresses on the plain list of rows; it refuses exactly when that does -/
+theorem C03_setitem [XorLike α] (rows : List (List α)) (idx : Index) (v : Value α) :
+    (setitem (RA.ofRows rows) idx v).map RA.rows = Py.setitem rows idx v :=
+  setitem_ofRows rows idx v
+
+/-- the array keeps its shape object (number of rows, row lengths) -/
+theorem C03_setitem_shape [XorLike α] (a : RA α) (idx : Index) (v : Value α) (a' : RA α)
+    (h : setitem a idx v = some a') : a'.shape = a.shape := by
+  rw [setitem_def] at h
+  cases hf : flatIndex a.shape.codes idx with
+  | none => simp [hf] at h
+  | some fs =>
+    simp only [hf, Option.bind_some] at h
+    cases hv : shapeVals fs.1.length fs.2 v with
+    | none => simp [hv] at h
+    | some vals =>
+      simp only [hv, Option.bind_some] at h
+      cases hs : scatterInt a.data (fs.1.zip vals) with
+      | none => simp [hs] at h
+      | some d =>
+        simp only [hs, Option.map_some, Option.some.injEq] at h
+        rw [← h]
+
+/-- boolean ragged mask assignment -/
+theorem C03_setitem_mask (rows : List (List α)) (mask : List (List Bool)) (v : Value α)
+    (hm : mask.map List.length = rows.map List.length) :
+    (setitemMask (RA.ofRows rows) mask v).map RA.rows = Py.setitemMask rows mask v :=
+  setitemMask_ofRows rows mask v hm
+
+/-- what `Py.setitem` returns when it accepts: the addressed cells, zipped with the shaped values,
+written in order -/
+theorem setitem_some (rows : List (List α)) (idx : Index) (v : Value α) (rows' : List (List α))
+    (h : Py.setitem rows idx v = some rows') :
+    ∃ sel vals, Py.getitem (Py.coords rows) idx = some sel ∧ pyShapeVals sel v = some vals ∧
+      rows' = writeCells rows ((Py.resCells sel).zip vals) := by
+  rw [py_setitem_def] at h
+  cases hs : Py.getitem (Py.coords rows) idx with
+  | none => simp [hs] at h
+  | some sel =>
+    simp only [hs, Option.bind_some] at h
+    cases hv : pyShapeVals sel v with
+    | none => simp [hv] at h
+    | some vals =>
+      simp only [hv, Option.map_some, Option.some.injEq] at h
+      exact ⟨sel, vals, rfl, hv, h.symm⟩
+
+/-- spec level: row count and row lengths never change -/
+theorem C03_lengths (rows : List (List α)) (idx : Index) (v : Value α) (rows' : List (List α))
+    (h : Py.setitem rows idx v = some rows') : rows'.map List.length = rows.map List.length := by
+  obtain ⟨sel, vals, _, _, rfl⟩ := setitem_some rows idx v rows' h
+  exact writeCells_lengths rows _
+
+/-- spec level, frame: a cell that is not addressed keeps its content -/
+theorem C03_frame (rows : List (List α)) (idx : Index) (v : Value α) (rows' : List (List α))
+    (h : Py.setitem rows idx v = some rows') (cells : List (Nat × Nat)) (hc : addressed rows idx = some cells)
+    (r c : Nat) (hn : (r, c) ∉ cells) :
+    (rows'[r]?).bind (·[c]?) = (rows[r]?).bind (·[c]?) := by
+  obtain ⟨sel, vals, hs, _, rfl⟩ := setitem_some rows idx v rows' h
+  simp only [addressed, hs, Option.map_some, Option.some.injEq] at hc
+  subst hc
+  apply cellAt_writeCells_frame rows _ (r, c)
+  intro w hw e
+  exact hn (e ▸ (List.of_mem_zip hw).1)
+
+/-- spec level, written: with pairwise distinct addressed cells (non-repeating selectors), a scalar
+assignment puts the scalar into every addressed cell -/
+theorem C03_written_scalar (rows : List (List α)) (idx : Index) (x : α) (rows' : List (List α))
+    (h : Py.setitem rows idx (.scalar x) = some rows') (cells : List (Nat × Nat)) (hc : addressed rows idx = some cells)
+    (r c : Nat) (hm : (r, c) ∈ cells) :
+    (rows'[r]?).bind (·[c]?) = some x := by
+  obtain ⟨sel, vals, hs, hv, rfl⟩ := setitem_some rows idx (.scalar x) rows' h
+  simp only [addressed, hs, Option.map_some, Option.some.injEq] at hc
+  subst hc
+  have hvals : vals = List.replicate (Py.resCells sel).length x := by
+    cases sel <;> simp [pyShapeVals] at hv <;> exact hv.symm
+  subst hvals
+  rw [zip_replicate_eq]
+  have := cellAt_writeCells_const rows (Py.resCells sel) x (r, c)
+  rw [if_pos hm] at this
+  obtain ⟨y, hy⟩ := mem_coords_cellAt rows (r, c) (getitem_cells_mem _ idx sel hs _ hm)
+  rw [hy] at this
+  exact this
+
+/-! ### concrete instances (kernel-checked evaluation of both sides) -/
+
+/-- `ra[:, ::-2] = column [100, 101, 102]`: an empty row in the middle, negative column step -/
+example : (setitem (RA.ofRows [[0, 1, 2], [], [3, 4]]) (.rowcol (.slice none none none) (.slice none none (some (-2))))
+      (.column [100, 101, 102])).map RA.rows = some [[100, 1, 100], [], [3, 102]]
+    ∧ Py.setitem [[0, 1, 2], [], [3, 4]] (.rowcol (.slice none none none) (.slice none none (some (-2))))
+      (.column [100, 101, 102]) = some [[100, 1, 100], [], [3, 102]] := by decide
+
+/-- a ragged value whose row lengths do not match the selection is refused on both sides -/
+example : setitem (RA.ofRows [[0, 1, 2], [], [3, 4]]) (.rows (.slice (some 1) none none))
+      (.ragged [[7], [8, 9]]) = none
+    ∧ Py.setitem [[0, 1, 2], [], [3, 4]] (.rows (.slice (some 1) none none)) (.ragged [[7], [8, 9]]) = none := by
+  decide
+
+/-- a matching ragged value on a reversed row selection -/
+example : (setitem (RA.ofRows [[0, 1, 2], [], [3, 4]]) (.rows (.slice none none (some (-1))))
+      (.ragged [[7, 8], [], [9, 10, 11]])).map RA.rows = some [[9, 10, 11], [], [7, 8]]
+    ∧ Py.setitem [[0, 1, 2], [], [3, 4]] (.rows (.slice none none (some (-1))))
+      (.ragged [[7, 8], [], [9, 10, 11]]) = some [[9, 10, 11], [], [7, 8]] := by decide
+
+/-- fancy rows with a repeated index: the last write wins; negative column -/
+example : (setitem (RA.ofRows [[0, 1, 2], [], [3, 4]]) (.rowcol (.list [0, -1, 0]) (.int (-1)))
+      (.flat [50, 51, 52])).map RA.rows = some [[0, 1, 52], [], [3, 51]]
+    ∧ Py.setitem [[0, 1, 2], [], [3, 4]] (.rowcol (.list [0, -1, 0]) (.int (-1))) (.flat [50, 51, 52])
+      = some [[0, 1, 52], [], [3, 51]] := by decide
+
+/-- an integer column outside one of the selected rows is refused on both sides -/
+example : setitem (RA.ofRows [[0, 1, 2], [], [3, 4]]) (.rowcol .all (.int 0)) (.scalar 9) = none
+    ∧ Py.setitem [[0, 1, 2], [], [3, 4]] (.rowcol .all (.int 0)) (.scalar 9) = none := by decide
+
+/-- boolean ragged mask assignment -/
+example : (setitemMask (RA.ofRows [[0, 1, 2], [], [3, 4]]) [[true, false, true], [], [false, true]]
+      (.flat [7, 8, 9])).map RA.rows = some [[7, 1, 8], [], [3, 9]]
+    ∧ Py.setitemMask [[0, 1, 2], [], [3, 4]] [[true, false, true], [], [false, true]] (.flat [7, 8, 9])
+      = some [[7, 1, 8], [], [3, 9]] := by decide
+
+/-- a mask of the wrong shape is refused by the specification; a value of the wrong size by both -/
+example : Py.setitemMask [[0, 1, 2], [], [3, 4]] [[true, false], [true], [false, true]] (.scalar 7) = none
+    ∧ setitemMask (RA.ofRows [[0, 1, 2], [], [3, 4]]) [[true, false, true], [], [false, true]] (.flat [7, 8]) = none
+    ∧ Py.setitemMask [[0, 1, 2], [], [3, 4]] [[true, false, true], [], [false, true]] (.flat [7, 8]) = none := by
+  decide
+
+/-- the addressed cells of `[:, ::-2]`, in write order -/
+example : addressed [[0, 1, 2], [], [3, 4]] (.rowcol (.slice none none none) (.slice none none (some (-2))))
+    = some [(0, 2), (0, 0), (2, 1)] := by decide
+
 end Props.C03
